@@ -105,7 +105,10 @@ class Ctx:
     def coq_make(self, targets, timeout=1500):
         """full .vo build of the given targets (paths relative to coq/)"""
         self.coq_prepare()
-        rc, out, dt = sh(["timeout", str(timeout), "make", "-j", NPROC] + targets, cwd=COQ, timeout=timeout + 30)
+        # one make at a time in coq/ (several checks may run concurrently)
+        os.makedirs(WORK, exist_ok=True)
+        rc, out, dt = sh(["flock", os.path.join(WORK, "coq.lock"), "timeout", str(timeout), "make", "-j", NPROC] + targets,
+                         cwd=COQ, timeout=2 * timeout + 30)
         return rc, out
 
     def coq_gate(self, files):
